@@ -53,12 +53,16 @@ def main():
             sh(['git', 'checkout', '--', '.'], cwd=R)
             sh(['/venv/bin/python', V + '/harness/gen.py'], cwd=V)
         print(rows[-1]['id'], rows[-1].get('exit'), rows[-1].get('with_failing_input'), flush=True)
+    finish(rows, bool(only))
+
+
+def finish(rows, merge):
     old = {}
-    if only and os.path.exists(V + '/seeded/RESULTS.json'):
+    if merge and os.path.exists(V + '/seeded/RESULTS.json'):
         old = {r['id']: r for r in json.load(open(V + '/seeded/RESULTS.json'))}
     for r in rows:
         old[r['id']] = r
-    allrows = [old[k] for k in sorted(old)] if only else rows
+    allrows = [old[k] for k in sorted(old)] if merge else rows
     json.dump(allrows, open(V + '/seeded/RESULTS.json', 'w'), indent=1)
     with open(V + '/seeded/RESULTS.md', 'w') as f:
         f.write('# Seeded changes vs. checks (quick tier of the property the change was written against)\n\n')
